@@ -850,6 +850,8 @@ def specialize(stmts, var, val, consts):
             op = t.ops[0]
             if isinstance(r, ast.Constant) and isinstance(op, (ast.Eq, ast.NotEq)):
                 return (val == r.value) if isinstance(op, ast.Eq) else (val != r.value)
+            if isinstance(r, ast.Constant) and r.value is None and isinstance(op, (ast.Is, ast.IsNot)):
+                return (val is None) if isinstance(op, ast.Is) else (val is not None)
             if isinstance(op, (ast.In, ast.NotIn)):
                 s = None
                 if isinstance(r, (ast.Tuple, ast.List, ast.Set)) and all(isinstance(e, ast.Constant) for e in r.elts):
@@ -899,6 +901,10 @@ def specialize(stmts, var, val, consts):
         elif isinstance(s, ast.Try):
             n = _copy.copy(s)
             n.body = specialize(s.body, var, val, consts) or [ast.copy_location(ast.Pass(), s)]
+            out.append(n)
+        elif isinstance(s, (ast.Return, ast.Assign, ast.Expr)) and isinstance(getattr(s, "value", None), ast.IfExp) and ev(s.value.test) is not None:
+            n = _copy.copy(s)
+            n.value = s.value.body if ev(s.value.test) else s.value.orelse
             out.append(n)
         else:
             out.append(s)
